@@ -734,6 +734,13 @@ func (w *World) DrawAction(rt *rapid.T, p *Profile) (Action, string) {
 			seq = append(seq, Action{Op: "scan", Flag: true})
 			return Action{Op: "seq", Seq: seq}, "bulkAnd/" + what
 		}
+	case "raceOnWrite": // somebody else writes a node between escalator's read and its write (the write is refused once with a conflict)
+		tp, _ := w.drawTargetPods(rt, g, "zero", "belowL", "midLU", "aboveS", "farAboveS")
+		return Action{Op: "seq", Seq: []Action{
+			{Op: "fault", Faults: []sim.Fault{{Kind: sim.KUpdate, Nth: rapid.IntRange(0, 2).Draw(rt, "nth"), Count: rapid.SampledFrom([]int{1, 1, 2}).Draw(rt, "count")}},
+				Val: rapid.SampledFrom([]string{"cordon", "annotate", "foreignTaint", "otherReplica", "label"}).Draw(rt, "writer")},
+			tp, {Op: "scan", Flag: true},
+		}}, "raceOnWrite"
 	case "pinAsg": // the ASG is pinned (min == max) at or just below the group's node count while utilisation is low
 		if n := len(w.GroupNodeNames(g)); n > 0 {
 			pin := n - rapid.IntRange(0, 1).Draw(rt, "below")
